@@ -127,7 +127,7 @@ def run(tier, seed):
     # every (state, action) pair of the bounded model, each along a shortest path
     ebehs, eres = lifecycle.edge_behaviours(4 if tier == "quick" else 5)
     for k, b in enumerate(ebehs):
-        lifecycle.replay(b, k + seed, judge)
+        lifecycle.replay(b, k + seed, judge, probe=True)
     if judge.solves == 0:
         raise tlcrun.MachineryError("vacuity: no SolvePDE step was replayed")
     report_failures(rep, judge, ("C09_",))
